@@ -7,9 +7,9 @@
 (*           step 1 is Sourcefile.from_source(frontend=REGEX, parser_classes=req), later     *)
 (*           steps are make_complete(frontend=REGEX, parser_classes=req).                    *)
 (* TLC folds the requests into `parsed` and decides every step with RegexDiscovery!Clauses.  *)
-(* Verdict(c) = <<ok, clause, 0, details>>; details = one witness per violated clause:       *)
-(* <<clause, direct, P, o>> (direct: the observation is also produced by a single request of *)
-(* P; P as class letters UFITDCG; o = index of the observation).                             *)
+(* Verdict(c) = <<ok, clause, 0, details>>; details = witnesses <<clause, direct, P, o, start>>*)
+(* (direct: the observation is also produced by a single request of P; P as class letters    *)
+(* UFITDCG; o = index of the observation; start: kind of the request history).               *)
 EXTENDS RegexDiscovery, Json, IOUtils, SequencesExt
 
 Cases == JsonDeserialize(IOEnv.CASES)
@@ -25,28 +25,41 @@ PStr(P) == PStrR(P, 1)
 RECURSIVE UnionUpTo(_, _)
 UnionUpTo(h, s) == IF s = 0 THEN {} ELSE UnionUpTo(h, s - 1) \cup Range(h[s].req)
 
-\* all <<parsed, observation, first-step?>> triples of a case
-Triples(c) == UNION { { <<UnionUpTo(c.hists[h], s), c.hists[h][s].o, s = 1>> : s \in DOMAIN c.hists[h] }
-                      : h \in DOMAIN c.hists }
+\* all <<parsed, observation, first step?, history starts with a request containing ProgramUnit?>> of a case
+Quads(c) == UNION { { <<UnionUpTo(c.hists[h], s), c.hists[h][s].o, s = 1, "ProgramUnit" \in Range(c.hists[h][1].req)>>
+                      : s \in DOMAIN c.hists[h] } : h \in DOMAIN c.hists }
 
+\* Verdict(c) = <<ok, clause, 0, details>>; details = witnesses <<clause, direct, P, o, unitstart>> per violated
+\* clause (unitstart: "unit" = the witness comes from a history whose first request contains ProgramUnit,
+\* "nounit" = the clause is violated only in histories that request ProgramUnit later)
 Verdict(c) ==
   IF ~ValidFile(c.file) THEN <<FALSE, "oracle:invalid-file", 0, {}>>
   ELSE LET fpc == Clauses(c.fp, c.file, Classes) IN
   IF fpc # {} THEN <<FALSE, "oracle:fp-disagrees:" \o (CHOOSE x \in fpc : TRUE), 0, {}>>
   ELSE
-    LET trs == Triples(c)
-        prs == { <<t[1], t[2]>> : t \in trs }
+    LET qs  == Quads(c)
+        Prs(u) == { <<q[1], q[2]>> : q \in {qq \in qs : qq[4] = u} }
+        prs == Prs(TRUE) \cup Prs(FALSE)
         \* eager set of <<pair, violated clause>> (a function [pr |-> ..] would be re-evaluated at every use)
         bad == UNION { { <<pr, x>> : x \in Clauses(c.obs[pr[2]], c.file, pr[1]) } : pr \in prs }
-        od  == {pr \in prs : \E q \in prs : q[1] = pr[1] /\ q[2] # pr[2]}      \* same union, different result
-        all == {b[2] : b \in bad} \cup (IF od = {} THEN {} ELSE {"order-dependence"})
-        Wit(x) == IF x = "order-dependence" THEN od ELSE {b[1] : b \in {bb \in bad : bb[2] = x}}
+        Od(S) == {pr \in S : \E q \in S : q[1] = pr[1] /\ q[2] # pr[2]}      \* same union, different result
+        odT == Od(Prs(TRUE))
         Best(w) == CHOOSE pr \in w : \A q \in w : Cardinality(pr[1]) <= Cardinality(q[1])
-        Direct(w) == \E pr \in w : <<pr[1], pr[2], TRUE>> \in trs
-        Det(x) == LET w == Wit(x) b == Best(w) IN <<x, Direct(w), PStr(b[1]), b[2]>>
-        det == { Det(x) : x \in all }
-    IN IF all = {} THEN <<TRUE, "ok", 0, {}>>
-       ELSE <<FALSE, CHOOSE x \in all : TRUE, 0, det>>
+        Direct(w, u) == \E pr \in w : <<pr[1], pr[2], TRUE, u>> \in qs
+        Name(u) == IF u THEN "unit" ELSE "nounit"
+        \* one witness per clause: from the histories that start with ProgramUnit if the clause is violated
+        \* there, otherwise from the others
+        W(x, u) == {b[1] : b \in {bb \in bad : bb[2] = x}} \cap Prs(u)
+        clauseDet == { LET u == W(x, TRUE) # {}
+                           w == W(x, u) IN <<x, Direct(w, u), PStr(Best(w)[1]), Best(w)[2], Name(u)>>
+                       : x \in {b[2] : b \in bad} }
+        odR == Od(prs) \ odT
+        odDet == IF odT # {} THEN {<<"order-dependence", FALSE, PStr(Best(odT)[1]), Best(odT)[2], "unit">>}
+                 ELSE IF odR # {} THEN {<<"order-dependence", FALSE, PStr(Best(odR)[1]), Best(odR)[2], "nounit">>}
+                 ELSE {}
+        det == clauseDet \cup odDet
+    IN IF det = {} THEN <<TRUE, "ok", 0, {}>>
+       ELSE <<FALSE, (CHOOSE d \in det : TRUE)[1], 0, det>>
 
 VARIABLE tid
 Init_ == tid = 1 /\ file = <<>> /\ parsed = {} /\ top = "raw" /\ upc = <<>>
@@ -59,7 +72,7 @@ Next_ == /\ tid <= Len(Cases)
               IN /\ PrintT(<<"VERDICT", Cases[tid].id, v[1], v[2], Len(ds)>>)
                  /\ \A k \in DOMAIN ds :
                        /\ PrintT(<<"VERDICT", sid \o "#" \o ToString(k), ds[k][2], ds[k][1], ds[k][4]>>)
-                       /\ PrintT(<<"VERDICT", sid \o "#" \o ToString(k) \o "#P", TRUE, ds[k][3], 0>>)
+                       /\ PrintT(<<"VERDICT", sid \o "#" \o ToString(k) \o "#P", TRUE, ds[k][3], ds[k][5]>>)
          /\ tid' = tid + 1
          /\ UNCHANGED rdvars
 TraceSpec == Init_ /\ [][Next_]_<<tid, file, parsed, top, upc>>
